@@ -14,6 +14,8 @@
         bestR, bestA          final_reward[i], final_actions[i] after _update_results
         bestS, bestOK         bestA re-scored / checked for feasibility by the harness on the instance
      out                      what run() returned for the instance: rew, act, score (re-scored), ok (feasible), done
+     crashed                  the library raised before run() returned (reported by the harness; the iterations completed
+                              until then are still judged)
    Units: rewards 1e-6, pheromone and weights 1e-8 (a NaN / infinite value is logged as -1).
    The specification walks the iterations (variable l); failing clauses print <<"FAIL", tid, clause, l>>.            *)
 EXTENDS Naturals, Integers, Sequences, FiniteSets, TLC, Json, IOUtils
@@ -58,8 +60,8 @@ SeenTours == {Strip(R.it[t].tours[k]) : t \in 1..l, k \in Ants}
 M_Init == (l = 0 /\ \E a, b \in Nodes : Abs(R.pher0[a][b] - 50000) > 2) => Fail("initial-pheromone")
 M_Weights == (InIter /\ \E k \in Ants : Abs(Cur.wL[k] - Cur.w[k]) > WTol) => Fail("deposit-weight")
 M_WeightShape ==
-   (InIter /\ ~(\A k, j \in Ants : /\ Cur.w[k] >= 0 /\ Cur.w[k] <= R.q8
-                                   /\ (Cur.rewL[k] <= Cur.rewL[j] => Cur.w[k] <= Cur.w[j]))) => Fail("deposit-weight-monotone-in-reward")
+   (InIter /\ ~(\A k, j \in Ants : /\ Cur.wL[k] >= 0 /\ Cur.wL[k] <= R.q8 + WTol
+                                   /\ (Cur.rewL[k] <= Cur.rewL[j] => Cur.wL[k] <= Cur.wL[j]))) => Fail("deposit-weight-monotone-in-reward")
 M_PherOwn ==
    (InIter /\ \E a, b \in Nodes : /\ <<a - 1, b - 1>> \notin OwnEdges
                                   /\ Abs(Cur.pher[a][b] - Decay(Prev[a][b])) > PTol(Prev[a][b])) => Fail("pheromone-only-from-own-ants")
@@ -73,7 +75,7 @@ M_BestIsMax == (InIter /\ Abs(Cur.bestR - MaxOf(SeenRew)) > RTol(Cur.bestR)) => 
 M_Monotone == (InIter /\ l > 1 /\ Cur.bestR < R.it[l - 1].bestR) => Fail("best-so-far-monotone")
 M_StoredCost == (InIter /\ (~Cur.bestOK \/ Abs(Cur.bestS - Cur.bestR) > RTol(Cur.bestR))) => Fail("stored-tour-has-stored-cost")
 M_Own == (InIter /\ Strip(Cur.bestA) \notin SeenTours) => Fail("stored-tour-from-own-ant")
-M_Final == (l = T + 1 /\ ~(/\ R.out.rew = R.it[T].bestR
+M_Final == (l = T + 1 /\ ~R.crashed /\ ~(/\ R.out.rew = R.it[T].bestR
                            /\ Strip(R.out.act) = Strip(R.it[T].bestA)
                            /\ Abs(R.out.score - R.out.rew) <= RTol(R.out.rew)
                            /\ R.out.ok /\ R.out.done)) => Fail("final-is-best")
